@@ -149,6 +149,161 @@ class Exec:
         return rec
 
 
+class _FakeIce:
+    role = "controlling"
+    state = "completed"
+
+    def on(self, *a, **k):
+        return None
+
+
+class _Endpoint:
+    """A receiver / sender behind the transport: records what is handed to it."""
+
+    def __init__(self, name, log):
+        self.name = name
+        self._ssrc = 0
+        self._log = log
+
+    def __repr__(self):
+        return self.name
+
+    async def _handle_rtp_packet(self, packet, arrival_time_ms=0):
+        self._log.append((self.name, "rtp", packet.serialize()))
+
+    async def _handle_rtcp_packet(self, packet):
+        self._log.append((self.name, "rtcp", bytes(packet)))
+
+
+_CERT = []
+
+
+class TransportExec(Exec):
+    """The same abstract operations executed one level up, where the property says the effect is
+    observed: registrations go through RTCDtlsTransport._register_rtp_receiver / _register_rtp_sender /
+    _unregister_*, packets enter as datagrams through _handle_rtp_data / _handle_rtcp_data (several
+    RTCP packets may share one compound datagram) and the trace records which registered object's
+    callback received which packet.  The recorded steps have the router-level format, one step per
+    RTCP packet, so TraceRouter.tla judges them with the same rule operators."""
+
+    def __init__(self, ssrc_map=None, pt_map=None):
+        super().__init__(ssrc_map, pt_map)
+        import asyncio
+        from aiortc.rtcdtlstransport import RTCCertificate, RTCDtlsTransport
+        if not _CERT:
+            _CERT.append(RTCCertificate.generateCertificate())
+        self.loop = asyncio.new_event_loop()
+        asyncio.set_event_loop(self.loop)
+        self.transport = RTCDtlsTransport(_FakeIce(), [_CERT[0]])
+        self.router = self.transport._rtp_router
+        self.log = []
+
+    def close(self):
+        import asyncio
+        self.loop.close()
+        asyncio.set_event_loop(None)
+
+    def party(self, name):
+        if name not in self.parties:
+            self.parties[name] = _Endpoint(name, self.log)
+        return self.parties[name]
+
+    def _rtcp_packet(self, op):
+        from aiortc import rtp
+        sm = self.ssrc_map
+        kind, ssrc, ssrcs = op["kind"], sm(op["ssrc"]), [sm(x) for x in op["ssrcs"]]
+
+        def ri(x):
+            return rtp.RtcpReceiverInfo(ssrc=x, fraction_lost=0, packets_lost=0, highest_sequence=0, jitter=0, lsr=0, dlsr=0)
+        if kind == "SR":
+            return rtp.RtcpSrPacket(ssrc=ssrc, sender_info=rtp.RtcpSenderInfo(1, 2, 3, 4), reports=[ri(x) for x in ssrcs])
+        if kind == "RR":
+            return rtp.RtcpRrPacket(ssrc=ssrc, reports=[ri(x) for x in ssrcs])
+        if kind == "BYE":
+            return rtp.RtcpByePacket(sources=ssrcs)
+        if kind == "RTPFB":
+            return rtp.RtcpRtpfbPacket(fmt=rtp.RTCP_RTPFB_NACK, ssrc=12345, media_ssrc=ssrc, lost=[1, 2])
+        if kind == "PSFB":
+            return rtp.RtcpPsfbPacket(fmt=rtp.RTCP_PSFB_PLI, ssrc=12345, media_ssrc=ssrc)
+        if kind == "REMB":
+            return rtp.RtcpPsfbPacket(fmt=rtp.RTCP_PSFB_APP, ssrc=12345, media_ssrc=0, fci=rtp.pack_remb_fci(1000000, ssrcs))
+        if kind == "SDES":
+            return rtp.RtcpSdesPacket(chunks=[rtp.RtcpSourceInfo(ssrc=ssrc, items=[(1, b"cname")])])
+        raise ValueError(kind)
+
+    def do(self, op):
+        from aiortc import rtp
+        from aiortc.rtcrtpparameters import (RTCRtpCodecParameters, RTCRtpDecodingParameters, RTCRtpReceiveParameters,
+                                             RTCRtpSendParameters)
+        k = op["op"]
+        sm, pm = self.ssrc_map, self.pt_map
+        if k == "reg_recv":
+            params = RTCRtpReceiveParameters(
+                codecs=[RTCRtpCodecParameters(mimeType="video/X", clockRate=90000, payloadType=pm(p)) for p in op["pts"]],
+                encodings=[RTCRtpDecodingParameters(ssrc=sm(x), payloadType=pm(op["pts"][0]) if op["pts"] else 0) for x in op["ssrcs"]])
+            self.transport._register_rtp_receiver(self.party(op["r"]), params)
+        elif k == "unreg_recv":
+            self.transport._unregister_rtp_receiver(self.party(op["r"]))
+        elif k == "reg_send":
+            snd = self.party(op["s"])
+            snd._ssrc = sm(op["ssrc"])
+            self.transport._register_rtp_sender(snd, RTCRtpSendParameters())
+        elif k == "unreg_send":
+            self.transport._unregister_rtp_sender(self.party(op["s"]))
+        elif k == "rtp":
+            pkt = rtp.RtpPacket(payload_type=pm(op["pt"]), ssrc=sm(op["ssrc"]), sequence_number=len(self.steps) & 0xFFFF, payload=b"x")
+            del self.log[:]
+            self.loop.run_until_complete(self.transport._handle_rtp_data(pkt.serialize(), arrival_time_ms=0))
+            got = sorted(n for n, kind, _ in self.log if kind == "rtp")
+            rec = dict(op)
+            rec["res"] = "none" if not got else (got[0] if len(got) == 1 else "+".join(got))
+            self.steps.append(rec)
+            return rec
+        elif k in ("rtcp", "rtcp_compound"):
+            parts = op["parts"] if k == "rtcp_compound" else [op]
+            uniq, raws = [], []
+            for part in parts:              # byte-identical packets could not be told apart afterwards
+                raw = bytes(self._rtcp_packet(part))
+                if raw not in raws:
+                    uniq.append(part)
+                    raws.append(raw)
+            del self.log[:]
+            self.loop.run_until_complete(self.transport._handle_rtcp_data(b"".join(raws)))
+            rec = None
+            for part, raw in zip(uniq, raws):
+                rec = dict(part)
+                rec["op"] = "rtcp"
+                rec["ssrcs"] = sorted(rec["ssrcs"])
+                rec["res"] = sorted(n for n, kind, data in self.log if kind == "rtcp" and data == raw)
+                rec["compound"] = len(uniq)
+                self.steps.append(rec)
+            stray = [n for n, kind, data in self.log if kind != "rtcp" or data not in raws]
+            if stray:                        # something that was not in the datagram was delivered
+                self.steps.append({"op": "rtcp", "kind": "SDES", "ssrc": 0, "ssrcs": [], "res": sorted(stray), "compound": -1})
+            return rec
+        else:
+            raise ValueError(k)
+        rec = dict(op)
+        for f in ("ssrcs", "pts"):
+            if f in rec:
+                rec[f] = sorted(rec[f])
+        self.steps.append(rec)
+        return rec
+
+
+def compound_history(r, length):
+    """random_history with runs of RTCP packets merged into compound datagrams."""
+    out = []
+    for op in random_history(r, length):
+        if op["op"] == "rtcp" and out and out[-1]["op"] in ("rtcp", "rtcp_compound") and r.random() < 0.6:
+            prev = out.pop()
+            parts = prev["parts"] if prev["op"] == "rtcp_compound" else [prev]
+            out.append({"op": "rtcp_compound", "parts": parts + [op]})
+        else:
+            out.append(op)
+    return out
+
+
 def ops_from_behaviour(beh):
     ops = []
     for action, state in beh[1:]:
@@ -240,6 +395,21 @@ def run():
                     ex.do(op)
                 traces.append({"id": len(traces) + 1, "src": "random", "steps": ex.steps})
 
+            # 3b. the same one level up: registrations and datagrams through a real RTCDtlsTransport
+            # (compound RTCP datagrams, callbacks of the registered objects as the observation)
+            ntr = 1500 if thorough else 300
+            tsteps = 0
+            for i in range(ntr):
+                ex = TransportExec(*renames[r.randint(0, 2)])
+                try:
+                    ops = compound_history(r, r.randint(5, 60)) if i % 4 else ops_from_behaviour(behs[i % len(behs)])
+                    for op in ops:
+                        ex.do(op)
+                finally:
+                    ex.close()
+                tsteps += len(ex.steps)
+                traces.append({"id": len(traces) + 1, "src": "transport", "steps": ex.steps})
+
             # 4. validate all recorded traces against the spec
             val, verdicts = T.validate_traces(sc, "TraceRouter", TRACE_CFG, traces, timeout=1500)
             if len(verdicts) != len(traces):
@@ -278,6 +448,9 @@ def run():
             "trace_validation_states": val.distinct,
             "traces_with_routed_packet": nontrivial,
             "lockstep_behaviours": len(behs), "lockstep_steps": lock_steps, "lockstep_mismatches": lock_mismatch,
+            "transport_level_traces": ntr, "transport_level_steps": tsteps,
+            "compound_rtcp_datagrams": sum(1 for t in traces if t["src"] == "transport" for st in t["steps"]
+                                           if st.get("compound", 1) > 1),
             "binding_selftest": "corrupted trace rejected with " + str(bind),
             "action_coverage": {k: v[1] for k, v in exh.action_counts().items()},
             "samples": [traces[0]["steps"][:8], traces[-1]["steps"][:8]],
@@ -295,10 +468,24 @@ def replay(path):
     import json
     obj = json.load(open(path))
     t = obj["replay"]
-    ex = Exec()
-    for st in t["steps"]:
-        op = {k: v for k, v in st.items() if k != "res"}
-        ex.do(op)
+    if t.get("src") == "transport" or any("compound" in st for st in t["steps"]):
+        ex = TransportExec()
+        steps = [st for st in t["steps"] if st.get("compound", 1) != -1]
+        i = 0
+        try:
+            while i < len(steps):
+                st = steps[i]
+                n = st.get("compound", 1) if st["op"] == "rtcp" else 1
+                parts = [{k: v for k, v in x.items() if k not in ("res", "compound")} for x in steps[i:i + max(1, n)]]
+                ex.do(parts[0] if len(parts) == 1 else {"op": "rtcp_compound", "parts": parts})
+                i += max(1, n)
+        finally:
+            ex.close()
+    else:
+        ex = Exec()
+        for st in t["steps"]:
+            op = {k: v for k, v in st.items() if k != "res"}
+            ex.do(op)
     with T.Scratch() as sc:
         _, v = T.validate_traces(sc, "TraceRouter", TRACE_CFG, [{"id": 1, "steps": ex.steps}])
     verdict, pos = v.get(1, ("machinery", 0))
